@@ -161,9 +161,9 @@ func followRule(r *node, ctx *Ctx) (err error) {
 			if len(insn) == 0 {
 				insn = "static"
 			}
-			ins, err := inspector.GetInspector(insn)
-			if err != nil {
-				return err
+			ins, ierr := inspector.GetInspector(insn)
+			if ierr != nil {
+				return ierr
 			}
 			raw := ctx.bufX
 			ctx.Set(lv, raw, ins)
